@@ -170,10 +170,11 @@ GEN = {"kernel": ("theories/Gen/GenEquiv.vo", "kernel of /repo (gene_datum.py, o
        "guards": ("theories/Proofs/GuardsP.vo", "guard functions of /repo (MergeData._validate_chromosome/_windows/_gene_names, PreProcessor._validate_split, check_strand; the calls of the guards by MergeData.sum and import_filtered_genes): accept exactly what the models accept (Proofs/GuardsP.v)"),
        "reader": ("theories/Props/C15code.vo", "loading protocol of /repo's DensityData (__init__, _swap_strand_vals, _index_of_gene, verify_h5_cache) over symbolic file names: same raw file, same trusted copy, same values served as Model.Reader.load; exchange loop = swap_all (Proofs/ReaderCodeP.v)"),
        "writers": ("theories/Props/C12code.vo", "writers of the reused intermediates of /repo (ReviseAnno._write, GeneData.write, TransposonData.write, _calculate_overlap_job, error path of _process_overlap_job) as lists of file actions: atomic at every crash point (Props/C12code.v)"),
+       "store": ("theories/Props/C19code.vo", "opening of /repo's density store (_DensitySubset.__init__ and the six methods it calls), executed symbolically over h5py's require_dataset: equal to Model.Store2.open for every configuration and stored group (Proofs/StoreCodeP.v)"),
        "cf_worker_run": ("theories/Props/C20code.vo", "control flow of /repo's WorkerProcess.run (+ _send_result) as an interaction program: equal to Model/Worker.v on every script (Proofs/WorkerProgP.v)"),
        "cf_handle_chrome": ("theories/Props/C11code.vo", "control flow of /repo's _ProgressBars.handle_chrome (+ _pop, _collect) as an interaction program: in lockstep with Model/Collector.v under every schedule (Proofs/CollectorProgP.v)")}
 # further property files (theorems about the translated code) whose theorems and Print Assumptions are checked with the property's own
-EXTRA_PROPS = {"C20": ["C20code.v"], "C11": ["C11code.v"], "C02": ["C02code.v"], "C03": ["C03float.v"], "C13": ["C13code.v"], "C18": ["C18code.v"], "C15": ["C15code.v"], "C09": ["C15code.v"], "C12": ["C12code.v"], "C17": ["C12code.v"],
+EXTRA_PROPS = {"C20": ["C20code.v"], "C11": ["C11code.v"], "C02": ["C02code.v"], "C03": ["C03float.v"], "C13": ["C13code.v"], "C18": ["C18code.v"], "C15": ["C15code.v"], "C09": ["C15code.v"], "C12": ["C12code.v"], "C17": ["C12code.v"], "C19": ["C19code.v"],
                "C05": ["C18code.v"]}
 # axioms of Coq's standard library that the theorems of a property file may depend on (everything else: none)
 STDLIB_REALS = {"ClassicalDedekindReals.sig_forall_dec", "ClassicalDedekindReals.sig_not_dec",
@@ -182,7 +183,7 @@ ALLOWED_AXIOMS = {"C03float.v": STDLIB_REALS}
 # which translated parts each property's theorems rest on
 NEEDS = {"C01": ["kernel", "revise"], "C02": ["kernel", "revise"], "C03": ["kernel"], "C04": ["kernel", "revise"], "C05": ["kernel", "guards"], "C06": ["kernel"], "C07": ["kernel"],
          "C10": ["kernel"], "C14": ["kernel", "cache"], "C12": ["cache", "guards", "writers"], "C13": ["cache", "guards"], "C17": ["cache", "guards", "writers"],
-         "C18": ["guards"], "C09": ["reader"], "C15": ["reader"], "C16": ["reader"],
+         "C18": ["guards"], "C19": ["store"], "C09": ["reader"], "C15": ["reader"], "C16": ["reader"],
          "C20": ["cf_worker_run"], "C11": ["cf_handle_chrome"]}
 
 
